@@ -88,7 +88,8 @@ func genC10(seed int64, tier string) *Scenario {
 	open := map[string]bool{}
 	for _, n := range names {
 		if n == "a.lua" || (meta && n == "b.lua") || r.Intn(3) > 0 {
-			sc.Ops = append(sc.Ops, Op{Kind: "open", Path: n})
+			// (an eager client does not wait for these either: the burst then overlaps the start-up)
+			sc.Ops = append(sc.Ops, Op{Kind: "open", Path: n, Async: sc.Eager})
 			open[n] = true
 		}
 	}
